@@ -94,6 +94,7 @@ struct Global {
     volatile int in_run;
     volatile uint64_t reports;     // sanitizer reports noted during this run
     unsigned watchdog_s;
+    volatile long run_started;     // CLOCK_MONOTONIC seconds at run begin
 };
 
 Global g;
@@ -561,8 +562,13 @@ void* watchdog_main(void*) {
     for (;;) {
         struct timespec ts = {1, 0};
         nanosleep(&ts, nullptr);
-        if (!g.in_run || g.heartbeat != last) { last = g.heartbeat; idle = 0; continue; }
-        if (++idle >= g.watchdog_s) {
+        struct timespec now;
+        clock_gettime(CLOCK_MONOTONIC, &now);
+        // hard limit per run: an endless loop that keeps touching the ledger
+        // has a heartbeat but never ends
+        bool overdue = g.in_run && (now.tv_sec - g.run_started) >= long(g.watchdog_s);
+        if (!overdue && (!g.in_run || g.heartbeat != last)) { last = g.heartbeat; idle = 0; continue; }
+        if (overdue || ++idle >= g.watchdog_s) {
             char buf[2048];
             buf[0] = 0;
             if (g.active) describe(buf, sizeof buf);
@@ -579,7 +585,16 @@ void rt_start_watchdog(unsigned seconds) {
     pthread_create(&t, nullptr, watchdog_main, nullptr);
     pthread_detach(t);
 }
-void rt_set_in_run(bool on) { g.in_run = on ? 1 : 0; g.heartbeat++; if (on) g.reports = 0; }
+void rt_set_in_run(bool on) {
+    if (on) {
+        struct timespec now;
+        clock_gettime(CLOCK_MONOTONIC, &now);
+        g.run_started = now.tv_sec;
+        g.reports = 0;
+    }
+    g.in_run = on ? 1 : 0;
+    g.heartbeat++;
+}
 void rt_note_report() { g.reports++; }
 uint64_t rt_report_count() { return g.reports; }
 
